@@ -7,6 +7,59 @@ import world_common as wc
 MON = ["projects", "store_immutable", "faithful", "queue_form", "fault_reported", "no_error"]
 
 
+def gen_nested_case(rng):
+    """a project parent configured INSIDE a configured project root (a monorepo with packages): a file below a child of
+    the parent belongs to that child - the deeper project -, a file directly in the root to the root"""
+    s = wc.Script()
+    W = wc.WATCH
+    wc.setup_world(s, wc.base_cfg(deb=0, project_roots=[W + "/mono"], project_parents=[W + "/mono/packages"]))
+    s.start()
+    s.exec(3, wc.X + "/vim")
+    files = {"a": ["x.c", "src/y.c"], "b": ["z.c"]}
+    expect = []
+    n = 0
+    for _ in range(rng.randint(2, 6)):
+        child = rng.choice(sorted(files))
+        rel = rng.choice(files[child])
+        n += 1
+        s.put("%s/mono/packages/%s/%s" % (W, child, rel), "v%d" % n)
+        s.write(3, "%s/mono/packages/%s/%s" % (W, child, rel))
+        if (child, rel) not in expect:
+            expect.append((child, rel))
+        if rng.random() < 0.3:
+            s.put(W + "/mono/top.c", "t%d" % n)
+            s.write(3, W + "/mono/top.c")
+        if rng.random() < 0.4:
+            s.tick(1)
+            s.dump()
+            s.timeout()
+            s.dump()
+    s.tick(1)
+    s.dump()
+    s.timeout()
+    s.dump()
+    return s.text(), {"nested": expect}
+
+
+def mon_nested(steps, meta):
+    """every child of the project parent in which a file was versioned has, after the last pass, a snapshot of its own
+    (project store/<child>/<version>) holding that file at its path within the child"""
+    dumps = [st.dump for st in steps if st.dump is not None]
+    if not dumps or not meta.get("nested"):
+        return None
+    last = dumps[-1]
+    for child, rel in meta["nested"]:
+        snaps = [p for p, e in last.items() if e[0] == "dir" and p.startswith("/k/projects/%s/" % child) and p.count("/") == 4]
+        if not any((sd + "/" + rel) in last for sd in snaps):
+            where = sorted(p for p in last if p.startswith("/k/projects/") and p.endswith("/" + rel.rsplit("/", 1)[-1]))
+            return ("packages/%s/%s was versioned as part of the project '%s' (a child of the configured project parent) and the project is quiet, but no snapshot "
+                    "of '%s' holds it (it is in: %s)" % (child, rel, child, child, where or "no snapshot at all"))
+    return None
+
+
+wk.MONITORS["nested"] = mon_nested
+
+
 def main(rep):
     rng = random.Random(rep.seed)
     n = 250 if rep.tier == "quick" else 5000
@@ -14,12 +67,15 @@ def main(rep):
     for i in range(n):
         t, m = wc.gen_project_case(rng)
         cases.append(("p%d" % i, t, m))
-    wk.standard_main(rep, cases=cases, monitors=MON,
+    for i in range(max(10, n // 12)):
+        t, m = gen_nested_case(rng)
+        cases.append(("n%d" % i, t, m))
+    wk.standard_main(rep, cases=cases, monitors=MON + ["nested"],
                      rule=("a configured project root and two children of a project parent, files at depth 1-4, a loose file in the parent and a non-project "
                            "file, writes, deletions, passes, restarts, both traversal orders of the tree walk; the monitor checks every new snapshot directory: "
                            "each entry is the same inode as the latest version of that member, every versioned member that still exists is present, deleted "
-                           "ones are absent, earlier snapshots untouched"))
+                           "ones are absent, earlier snapshots untouched; plus a project parent nested inside a project root: each child in which a file was versioned gets a snapshot of its own"))
 
 
 def replay(rep, path):
-    return wk.replay_world(rep, path, MON)
+    return wk.replay_world(rep, path, MON + ["nested"])
